@@ -235,7 +235,7 @@ KdEncodeBall ==
     /\ phase = "checked" /\ inp.engine = "kd"
     /\ index' = [p \in 1..Len(inp.seqs) |-> Compo(inp.seqs[p], NA, inp.comp)]
     /\ cand' = UNION { { <<b[xy[1]], b[xy[2]]>> : xy \in { uv \in (1..Len(b)) \X (1..Len(b)) :
-                             SqDist(index'[b[uv[1]]], index'[b[uv[2]]]) <= 2 * inp.k * inp.k } }
+                             SqDist(index'[b[uv[1]]], index'[b[uv[2]]]) <= (IF "mut_kd_radius" \in AsFound THEN 2 * inp.k ELSE 2 * inp.k * inp.k) } }
                        : b \in Buckets(inp) }
     /\ nbuilt' = Len(inp.seqs)
     /\ phase' = "built"
